@@ -82,6 +82,29 @@ theorem C09_prefix (blocked : Bool) (recs : List Bytes)
   · obtain ⟨j, e, hr, _, _, _, he⟩ := C09_blocked 6000 (by decide) recs h n
     exact ⟨j, e, hr, he⟩
 
+/-- C09 (IPM form): for a file of records that all decode (an IPM file written by the library),
+    iterating an IPM reader over ANY truncation yields exactly the decodings of the records wholly
+    contained in the surviving bytes, in order, then end-of-data or the library's data error — for
+    any message decoder `dec`, both formats -/
+theorem C09_ipm (blocked : Bool) {α} (dec : Bytes → Outcome α) (val : Bytes → α) (recs : List Bytes)
+    (h : ∀ r ∈ recs, 0 < r.length ∧ r.length ≤ 6000) (hdec : ∀ r ∈ recs, dec r = .ok (val r)) (n : Nat) :
+    ∃ j e,
+      (if blocked then
+          Vbs.ipmReadAll (unblockSrc 1012) 6000 dec (((Writer.listToBytes 1012 blocked recs).take n).length + 1)
+            (Vbs.init ⟨(Writer.listToBytes 1012 blocked recs).take n, []⟩)
+        else
+          Vbs.ipmReadAll plainSrc 6000 dec (((Writer.listToBytes 1012 blocked recs).take n).length + 1)
+            (Vbs.init ((Writer.listToBytes 1012 blocked recs).take n))) = ((recs.take j).map val, e) ∧
+      (e = .eof ∨ ∃ c, e = .dataError (j + 1) c) := by
+  obtain ⟨j, e, hr, he⟩ := C09_prefix blocked recs h n
+  refine ⟨j, e, ?_, he⟩
+  have hall : ∀ r ∈ recs.take j, dec r = .ok (val r) := fun r hr' => hdec r (List.mem_of_mem_take hr')
+  cases blocked
+  · simp only [vbsBytesToList, Bool.false_eq_true, if_false] at hr ⊢
+    rw [Vbs.ipmReadAll_of_readAll _ _ dec val _ _ (by rw [hr]; exact hall), hr]
+  · simp only [vbsBytesToList, if_true] at hr ⊢
+    rw [Vbs.ipmReadAll_of_readAll _ _ dec val _ _ (by rw [hr]; exact hall), hr]
+
 -- sanity tests (evaluated): cut inside the second record, and inside the second length prefix
 #guard vbsBytesToList 1012 6000 false ((Writer.listToBytes 1012 false [[1, 2], [3, 4, 5]]).take 12) ==
   ([[1, 2]], .dataError 2 [0, 0, 0, 3, 3, 4])
